@@ -122,7 +122,9 @@ func (s *rrSegFetcher) doCheck() {
 
 	// queue outgoing interest for the next segment
 	args := ExpressRArgs{
-		Name: append(state.fetchName,
+		// clip the capacity: with spare capacity in fetchName (a versioned name given
+		// by the caller) all queued Interests would share one segment component
+		Name: append(state.fetchName[:len(state.fetchName):len(state.fetchName)],
 			enc.NewSegmentComponent(seg),
 		),
 		Config: &ndn.InterestConfig{
